@@ -1,6 +1,7 @@
 """C08 - results depend only on the model's current definition and the seed (engine E3)."""
-import itertools, warnings
+import itertools, os, warnings
 import numpy as np
+SEED = int(os.environ.get('VERIF_SEED', '0') or 0)   # rotates the real seeds that accompany the scripted stream; no verdict depends on it
 from ..core import pmap
 from ..util import Stream
 
@@ -125,13 +126,13 @@ def observe(m):
         warnings.simplefilter('ignore')
         for name, kw in (('ssa', dict(stochastic=True)), ('safe', dict(stochastic=True, safe=True)), ('volume', dict(stochastic=True, volume=2.0)),
                          ('delay', dict(stochastic=True, delay=True))):
-            for seed in (11, 4242):
+            for seed in (11 + SEED, 4242 + 7 * SEED):
                 br.py_seed_random(seed)
                 r = py_simulate_model(TIMES, Model=m, return_dataframe=False, **kw)
-                obs['%s/seed%d' % (name, seed)] = np.asarray(r.py_get_result())[:, perm].tolist()
-            br.py_seed_random(11)
+                obs['%s/seed%s' % (name, 'A' if seed == 11 + SEED else 'B')] = np.asarray(r.py_get_result())[:, perm].tolist()
+            br.py_seed_random(11 + SEED)
             r = py_simulate_model(TIMES, Model=m, return_dataframe=False, **kw)
-            obs['%s/seed11-again' % name] = np.asarray(r.py_get_result())[:, perm].tolist()
+            obs['%s/seedA-again' % name] = np.asarray(r.py_get_result())[:, perm].tolist()
             with Stream(SCRIPT, tail=0.6):
                 r = py_simulate_model(TIMES, Model=m, return_dataframe=False, **kw)
             obs['%s/scripted' % name] = np.asarray(r.py_get_result())[:, perm].tolist()
@@ -166,7 +167,7 @@ def check(c, hist):
         c.violation('C08/observe-exception', 'observing after %s raised %r' % (list(hist), e), case)
         return
     for name in ('ssa', 'safe', 'volume', 'delay'):
-        if o1['%s/seed11' % name] != o1['%s/seed11-again' % name]:
+        if o1['%s/seedA' % name] != o1['%s/seedA-again' % name]:
             c.violation('C08/not-repeatable/%s' % name, 'seeding with the same seed and simulating twice gives different %s output' % name, case)
     if o1['det'] != o1['det-again']:
         c.violation('C08/not-repeatable/det', 'two deterministic simulations differ', case)
@@ -177,7 +178,7 @@ def check(c, hist):
     if any(op in REACTIONS or op in ('rule', 'rule_dt', 'species', 'setp', 'sets') for op in hist):
         c.nontrivial(' '.join(hist))
     if len(c.samples) < 1 and len(hist) >= 3:
-        c.sample(dict(history=list(hist), species=o1['species'], ssa_seed11_last_row=o1['ssa/seed11'][-1]))
+        c.sample(dict(history=list(hist), species=o1['species'], ssa_seedA_last_row=o1['ssa/seedA'][-1]))
 
 
 def run(ctx):
